@@ -28,14 +28,16 @@ type c10scn struct {
 	nRenames  int
 	bothFlags bool
 	second    bool // the renamed call's argument is itself a derive call: it can only be registered (and renamed) in a second pass, after a reload
+	late      bool // the source files sort after derived.gen.go (main.go, types.go, z.go instead of a.go, b.go, c.go)
+	pregen    bool // derived.gen.go already exists: goderive ran before the calls to rename were added
 }
 
 func (s c10scn) label() string {
-	return fmt.Sprintf("mechanism=%s new-name=%s formatted=%v comments=%s layout=%s renamed-calls=%d both-flags=%v renamed-in-second-pass=%v", s.mech, s.lenRel, !s.unfmt, s.comments, s.layout, s.nRenames, s.bothFlags, s.second)
+	return fmt.Sprintf("mechanism=%s new-name=%s formatted=%v comments=%s layout=%s renamed-calls=%d both-flags=%v renamed-in-second-pass=%v files-sort-after-derived.gen.go=%v derived.gen.go-exists-before=%v", s.mech, s.lenRel, !s.unfmt, s.comments, s.layout, s.nRenames, s.bothFlags, s.second, s.late, s.pregen)
 }
 
 func (s c10scn) class() string {
-	return fmt.Sprintf("%s|%s|formatted=%v|comments=%s|%s|n=%d|second-pass=%v", s.mech, s.lenRel, !s.unfmt, s.comments, s.layout, s.nRenames, s.second)
+	return fmt.Sprintf("%s|%s|formatted=%v|comments=%s|%s|n=%d|second-pass=%v|late-files=%v|pregen=%v", s.mech, s.lenRel, !s.unfmt, s.comments, s.layout, s.nRenames, s.second, s.late, s.pregen)
 }
 
 func (s c10scn) flags() []string {
@@ -99,7 +101,11 @@ func (s c10scn) filler(fname string) string {
 	return fmt.Sprintf("// %s does nothing interesting.\nfunc %s(x int, y int) int {\n\t// nothing to reformat here\n\treturn x + y // sum\n}\n\nvar filler%s = []int{1, 2,\n\t3}\n\n// trailing comment at the end of the file\n", fname, fname, fname)
 }
 
-func (s c10scn) files() pkgFiles {
+func (s c10scn) files() pkgFiles { return s.filesN(false) }
+
+// filesN renders the package; with onlyKept the calls that will be renamed are
+// not there yet (the state of the package before the user added them).
+func (s c10scn) filesN(onlyKept bool) pkgFiles {
 	types := "type T1 struct{ A int }\n\ntype T2 struct{ B int }\n\ntype T3 struct{ C int }\n\n"
 	hdr := "// Package m is a scenario package.\npackage m\n\n"
 	// names and argument types of the calls: call 0 is kept, calls 1..n are renamed
@@ -138,7 +144,20 @@ func (s c10scn) files() pkgFiles {
 			calls = append(calls, call{n, 3})
 		}
 	}
+	if onlyKept {
+		calls = calls[:1]
+	}
 	fs := pkgFiles{}
+	defer func() {
+		if s.late {
+			for old, nw := range map[string]string{"a.go": "main.go", "b.go": "types.go", "c.go": "z.go"} {
+				if src, ok := fs[old]; ok {
+					fs[nw] = src
+					delete(fs, old)
+				}
+			}
+		}
+	}()
 	switch s.layout {
 	case "single":
 		src := hdr + types
@@ -176,8 +195,12 @@ func c10Scenarios() []c10scn {
 					for _, lay := range []string{"single", "split-late", "split-early"} {
 						for n := 1; n <= 2; n++ {
 							for _, both := range []bool{false, true} {
-								out = append(out, c10scn{mech, lr, unfmt, cm, lay, n, both, false})
-								out = append(out, c10scn{mech, lr, unfmt, cm, lay, n, both, true})
+								for _, late := range []bool{false, true} {
+									for _, pregen := range []bool{false, true} {
+										out = append(out, c10scn{mech, lr, unfmt, cm, lay, n, both, false, late, pregen})
+										out = append(out, c10scn{mech, lr, unfmt, cm, lay, n, both, true, late, pregen})
+									}
+								}
 							}
 						}
 					}
@@ -308,7 +331,18 @@ func checkC10(tier string) {
 		sc := scns[i]
 		dir := filepath.Join(scratchDir, "c10b", fmt.Sprintf("p%06d", i))
 		files := sc.files()
-		writePkg(dir, files)
+		if sc.pregen {
+			writePkg(dir, sc.filesN(true))
+			if pr := goderive(dir, append(sc.flags(), ".")...); pr.Exit != 0 {
+				rep.Infra("C10 scenario: the package without the calls to rename does not generate: " + head(firstErrorLine(pr.Stderr), 200))
+			}
+			// the user now adds the calls; derived.gen.go stays
+			for n, c := range files {
+				writeFile(filepath.Join(dir, n), c)
+			}
+		} else {
+			writePkg(dir, files)
+		}
 		defer removeAll(dir)
 		before := snapshot(dir)
 		r := goderive(dir, append(sc.flags(), ".")...)
@@ -379,8 +413,92 @@ func checkC10(tier string) {
 		outcomes["flags: rewritten ok"]++
 		mu.Unlock()
 	})
-	rep.Cov["states"] = len(progs) + len(scns)
-	rep.Cov["transitions"] = len(progs) + len(scns)
+	// part 3: a file with a renamed call, then a file whose call is refused: the run fails,
+	// and nothing but (correctly) rewritten files may be left behind
+	failRuns := 0
+	{
+		type fscn struct {
+			name  string
+			files pkgFiles
+		}
+		types := "type T1 struct{ A int }\n\ntype T2 struct{ B int }\n\n"
+		conflict := "func use0() bool { return deriveEqual(&T1{}, &T1{}) && deriveEqual(&T2{}, &T2{}) }\n"
+		duplicate := "func use0() bool { return deriveEqualA(&T1{}, &T1{}) && deriveEqualB(&T1{}, &T1{}) }\n"
+		bad := "package m\n\nfunc bad(p, q *T1) int { return deriveCompare(p, *q) }\n"
+		var fs []fscn
+		for _, nm := range [][2]string{{"a.go", "b.go"}, {"main.go", "types.go"}, {"a.go", "z.go"}} {
+			fs = append(fs, fscn{"conflict-then-refused-call|" + nm[0] + "+" + nm[1], pkgFiles{nm[0]: "package m\n\n" + types + conflict, nm[1]: bad}})
+			fs = append(fs, fscn{"duplicate-then-refused-call|" + nm[0] + "+" + nm[1], pkgFiles{nm[0]: "package m\n\n" + types + duplicate, nm[1]: bad}})
+			fs = append(fs, fscn{"refused-call-then-conflict|" + nm[0] + "+" + nm[1], pkgFiles{nm[0]: "package m\n\n" + types + "func bad(p, q *T1) int { return deriveCompare(p, *q) }\n", nm[1]: "package m\n\n" + conflict}})
+		}
+		flagSets := [][]string{{"-autoname"}, {"-dedup"}, {"-autoname", "-dedup"}}
+		parDo(len(fs)*len(flagSets)*2, func(i int) {
+			sc, flags, pregen := fs[i/(len(flagSets)*2)], flagSets[(i/2)%len(flagSets)], i%2 == 1
+			dir := filepath.Join(scratchDir, "c10c", fmt.Sprintf("p%04d", i))
+			if pregen {
+				// an earlier successful run on the package without the refused call
+				ok := pkgFiles{}
+				for n, c := range sc.files {
+					if !strings.Contains(c, "deriveCompare(p, *q)") {
+						ok[n] = c
+					} else {
+						ok[n] = "package m\n"
+					}
+				}
+				writePkg(dir, ok)
+				goderive(dir, append(append([]string{}, flags...), ".")...)
+				for n, c := range sc.files {
+					writeFile(filepath.Join(dir, n), c)
+				}
+			} else {
+				writePkg(dir, sc.files)
+			}
+			defer removeAll(dir)
+			start := map[string]string{}
+			for n := range sc.files {
+				start[n] = readFileOr(filepath.Join(dir, n), "")
+			}
+			before := snapshot(dir)
+			r := goderive(dir, append(append([]string{}, flags...), ".")...)
+			after := snapshot(dir)
+			mu.Lock()
+			failRuns++
+			outcomes[fmt.Sprintf("flags, refused call: exit %d", r.Exit)]++
+			mu.Unlock()
+			viol := func(clause, what string) {
+				rep.Violation(clause+"|"+sc.name+"|"+strings.Join(flags, "")+fmt.Sprintf("|pregen=%v", pregen), fmt.Sprintf("%s: %s with %v: %s (goderive exit %d: %s)", clause, sc.name, flags, what, r.Exit, head(firstErrorLine(r.Stderr), 160)),
+					map[string]interface{}{"engine": "e2", "files": sc.files, "flags": flags, "args": []string{"."}})
+			}
+			if r.Exit == 0 {
+				viol("refused-call-accepted", "the package holds deriveCompare(p, *q) and must be refused")
+			}
+			if d := snapDiff(before, after, func(rel string) bool {
+				return rel == "derived.gen.go" || strings.HasSuffix(rel, ".go") && before[rel].Mode == after[rel].Mode && after[rel].Sum != "" && before[rel].Sum != ""
+			}); len(d) > 0 {
+				viol("creates-or-deletes-files", strings.Join(d, ", "))
+			}
+			logged := map[string]map[string]bool{}
+			for _, m := range renameLogRe.FindAllStringSubmatch(r.Stderr, -1) {
+				if logged[m[1]] == nil {
+					logged[m[1]] = map[string]bool{}
+				}
+				logged[m[1]][m[2]] = true
+			}
+			for name := range sc.files {
+				now, err := os.ReadFile(filepath.Join(dir, name))
+				if err != nil {
+					viol("file-missing", name)
+					continue
+				}
+				if _, problem := checkRewrite(name, []byte(start[name]), now, logged); problem != "" && !strings.HasPrefix(problem, "harness:") {
+					viol("bad-rewrite", name+": "+problem)
+				}
+			}
+		})
+	}
+	rep.Cov["refused_call_after_rename_runs"] = failRuns
+	rep.Cov["states"] = len(progs) + len(scns) + failRuns
+	rep.Cov["transitions"] = len(progs) + len(scns) + failRuns
 	rep.Cov["traces_validated_against_impl"] = len(progs) + len(scns)
 	rep.Cov["evaluations"] = len(progs) + len(scns)
 	rep.Cov["distinct_nontrivial"] = len(scns) + outcomes["no-flags: generator error"] + outcomes["no-flags: add error"] + outcomes["no-flags: load/other error"]
@@ -389,7 +507,7 @@ func checkC10(tier string) {
 	rep.Cov["call_sites_renamed"] = renamedTotal
 	rep.Cov["files_rewritten_and_verified"] = rewrittenFiles
 	rep.Cov["files_verified_untouched"] = untouchedFiles
-	rep.Cov["rule"] = "state = one package (and flag set); part 1: every package of the C09 corpus (successes, generator errors, registration errors, load errors, multi-package invocations) run without flags, whole-tree snapshot (names, modes, SHA-256) before/after, only derived.gen.go may differ; part 2: every rename scenario of the product {dedup, autoname} x {new name shorter, equal, longer} x {gofmt-ed, not} x {no comments, before, inside, after the call, doc comments} x {one file, renamed call in a later file plus a file without calls, renamed call in the first file followed by unformatted files} x {1, 2 renamed call sites} x {mechanism's flag, both flags} x {renamed in the first pass, renamed in a second pass after a reload because its argument is itself a derive call}; oracle: files without a renamed call byte-identical, each rewritten file == go/format(original with exactly the renamed call identifiers substituted, positions from an independent parse, new names taken from goderive's own log), result type-checks, new names exist in derived.gen.go; non-trivial = rename scenarios + failing no-flag runs"
+	rep.Cov["rule"] = "state = one package (and flag set); part 1: every package of the C09 corpus (successes, generator errors, registration errors, load errors, multi-package invocations) run without flags, whole-tree snapshot (names, modes, SHA-256) before/after, only derived.gen.go may differ; part 2: every rename scenario of the product {dedup, autoname} x {new name shorter, equal, longer} x {gofmt-ed, not} x {no comments, before, inside, after the call, doc comments} x {one file, renamed call in a later file plus a file without calls, renamed call in the first file followed by unformatted files} x {1, 2 renamed call sites} x {mechanism's flag, both flags} x {renamed in the first pass, renamed in a second pass after a reload because its argument is itself a derive call} x {files sorting before, after derived.gen.go} x {no derived.gen.go yet, one left by a run made before the calls to rename were added}; plus packages where a file with a renamed call is followed by a file whose call is refused (the failing run may leave nothing but rewritten files behind); oracle: files without a renamed call byte-identical, each rewritten file == go/format(original with exactly the renamed call identifiers substituted, positions from an independent parse, new names taken from goderive's own log), result type-checks, new names exist in derived.gen.go; non-trivial = rename scenarios + failing no-flag runs"
 	rep.Cov["bound"] = fmt.Sprintf("%d no-flag packages + %d rename scenarios", len(progs), len(scns))
 	rep.Cov["exhaustive"] = true
 	rep.Sample(map[string]interface{}{"scenario": scns[len(scns)/2].label(), "files": scns[len(scns)/2].files()})
